@@ -1,6 +1,6 @@
 CFG = {
     "lean_targets": ["Norad.Props.C15"],
-    "extract": ["kern_consts", "upconv"],
+    "extract": ["kern_consts", "upconv", "upconv_site"],
     "audit": "Norad/Audit/C15.lean",
     "rule": ("groups/kerning/glyph-set triples written as format 1, 2 and 3 UFO trees and loaded with Font::load: every triple over a "
              "6-name colliding pool (A, @MMK_L_A, @MMK_L_@MMK_L_A, public.kern1.A, @MMK_R_A, public.kern2.A) with <=3 groups and <=1 pair (quick: "
